@@ -401,6 +401,97 @@ def check_inverse_sweep(ck, rng, record):
                     break
 
 
+# ----------------------------------------------------------------------------- every transform OPTION x scale regimes
+UNITS = (1e-6, 1e-3, 1.0, 1e3, 1e6)
+
+
+def check_option_scale(ck, rng, record):
+    """constructor / JSON options of the shipped transforms (k > 0 and cache_size of the increment transform, cache_size of
+    the ratio transform, loc/scale of Affine) in every time unit 1e-6 … 1e6 and both float dtypes: forward finite and
+    valid, inverse(forward(x)) = x RELATIVE to the magnitude of the heights, log|det J| vs the AD Jacobian, and the same
+    through a TransformedParameter (tensor setter = inverse, call = log-Jacobian)"""
+    from torchtree import Parameter, TransformedParameter
+    from torchtree.evolution.tree_height_transform import DifferenceNodeHeightTransform, GeneralNodeHeightTransform
+
+    options = [("difference", {"k": k_, "cache_size": cs}) for k_ in (0.0, 0.5, 2.0, 20.0) for cs in (0, 1)]
+    options += [("ratio", {"cache_size": cs}) for cs in (0, 1)]
+    for dt, rel, eps in ((DT, 1e-9, EPS), (torch.float32, 2e-4, 1.1920929e-07)):
+        for unit in UNITS:
+            for kind, opts in options:
+                must = opts.get("k", 0) > 0 and unit >= 1e3  # k·height beyond the exp range: never skipped
+                if not ck.thorough() and not must and rng.random() < 0.5:
+                    continue
+                n = rng.randrange(3, 7)
+                t = G.random_flip(G.random_topology(n, rng), rng)
+                ages = [rng.randrange(0, 13) / 4.0 * unit for _ in range(n)]
+                ages[rng.randrange(n)] = 0.0
+                if kind == "ratio":
+                    x = [rng.uniform(0.2, 0.8) for _ in range(n - 2)] + [max(ages) + rng.uniform(0.5, 3.0) * unit]
+                else:
+                    x = [rng.uniform(0.2, 3.0) * unit for _ in range(n - 1)]
+                batched = rng.random() < 0.3
+                rows = [x, [v * rng.choice([0.5, 1.0, 1.5]) if kind != "ratio" else v for v in x]] if batched else [x]
+                rep = {"type": "option-scale", "kind": kind, "options": opts, "unit": unit, "dtype": str(dt), "tree": G.paren(t),
+                       "dates": ages, "x": rows, "batched": batched}
+                ck.case(key=("option-scale", kind, tuple(sorted(opts.items())), unit, str(dt), G.paren(t)),
+                        bucket=f"option×scale/{kind}/" + ",".join(f"{a}={b:g}" for a, b in sorted(opts.items())) + f"/{dt}")
+                try:
+                    xt = torch.tensor(rows if batched else rows[0], dtype=dt)
+                    m = G.make_reparam(t, ages, xt.clone(), kind)
+                    tr = (DifferenceNodeHeightTransform(m, **opts) if kind == "difference" else GeneralNodeHeightTransform(m, **opts))
+                    y = tr(xt)
+                    S = max(float(y.abs().max()), float(xt.abs().max()))
+                    probs = []
+                    if not torch.isfinite(y).all():
+                        probs.append(f"forward gives {y.tolist()}")
+                    else:
+                        back = tr.inv(y.clone() if opts.get("cache_size") == 0 else y)
+                        back2 = tr.inv(y.detach().clone())  # a tensor that is not the cached object
+                        for which, b_ in (("inverse(forward(x))", back), ("inverse(copy of forward(x))", back2)):
+                            if b_.shape != xt.shape or not torch.isfinite(b_).all() or float((b_ - xt).abs().max()) > rel * S:
+                                probs.append(f"{which} = {b_.tolist()} for x = {xt.tolist()} (heights of magnitude {S:.3g})")
+                                break
+                        ld = tr.log_abs_det_jacobian(xt, y)
+                        for b, row in enumerate(rows):
+                            xr = torch.tensor(row, dtype=dt)
+                            J = jacobian(lambda v: tr(v), xr)
+                            true = torch.linalg.slogdet(J.to(DT))[1].item()
+                            got = (ld[b] if batched else ld).item()
+                            if not abs(got - true) <= (1e-7 if dt == DT else 5e-3) * max(1.0, abs(true)):
+                                probs.append(f"log|det J| reported {got!r}, AD Jacobian {true!r} at x = {row}")
+                                break
+                        # through a TransformedParameter: the tensor setter applies the inverse, the call the log-Jacobian
+                        if not probs:
+                            p = Parameter("x", xt.clone())
+                            tp = TransformedParameter("y", p, tr)
+                            tp.tensor = y.detach().clone()
+                            if not torch.isfinite(p.tensor).all() or float((p.tensor - xt).abs().max()) > rel * S:
+                                probs.append(f"assigning the heights {y.tolist()} to the TransformedParameter writes {p.tensor.tolist()} "
+                                             f"into its parameter (expected {xt.tolist()})")
+                            elif not torch.allclose(tp().to(DT), ld.to(DT), rtol=1e-9 if dt == DT else 1e-4, atol=1e-9 if dt == DT else 1e-4):
+                                probs.append(f"TransformedParameter() = {tp().tolist()} but the transform reports {ld.tolist()}")
+                except Exception as e:
+                    probs = [f"raises {type(e).__name__}: {str(e)[:140]}"]
+                for w in probs[:1]:
+                    name = "DifferenceNodeHeightTransform" if kind == "difference" else "GeneralNodeHeightTransform"
+                    sig_opt = "k>0" if opts.get("k") else "k=0"
+                    record(f"{name}:option-scale:{sig_opt if kind == 'difference' else 'cache'}:{dt}",
+                           f"{name}({', '.join(f'{a}={b}' for a, b in opts.items())}), time unit {unit:g}, {dt}: {w}", rep, (n, len(rows)))
+        # AffineTransform(loc, scale) at every scale: round trip relative to the magnitude
+        for scale in (1e-6, 1e-3, 1.0, 1e3, 1e6, -1e3):
+            for loc in (0.0, 2.5 * abs(scale), -1e3):
+                tr = D.AffineTransform(loc, scale)
+                xs = [rng.uniform(-3, 3) for _ in range(3)]
+                xt = torch.tensor(xs, dtype=dt)
+                ck.case(key=("option-scale-affine", loc, scale, str(dt)), bucket=f"option×scale/torch.AffineTransform/{dt}")
+                y = tr(xt)
+                back = tr.inv(y)
+                S = max(float(y.abs().max()), abs(loc)) / abs(scale)
+                if float((back - xt).abs().max()) > (1e-12 if dt == DT else 1e-4) * max(1.0, S):
+                    record(f"torch.AffineTransform:option-scale:{dt}", f"AffineTransform({loc}, {scale}) ({dt}): inverse(forward({xs})) = {back.tolist()}",
+                           {"type": "option-scale", "kind": "affine"}, (1, 1))
+
+
 def run_section(ck, rng, record):
     drv6 = None
     try:
@@ -415,6 +506,7 @@ def run_section(ck, rng, record):
         check_scaling_law(ck, rng, record)
         check_others(ck, rng, record)
         check_inverse_sweep(ck, rng, record)
+        check_option_scale(ck, rng, record)
     finally:
         if drv6:
             drv6.close()
@@ -442,6 +534,14 @@ def replay(obj):
                         lambda sig, what, rep, size: found.append((sig, what)), dtype=dt, with_ad=not big, with_flex=not big)
         finally:
             drv6.close()
+    elif obj["type"] == "option-scale":
+        import random
+
+        class _T(_Ck):
+            def thorough(self):
+                return True
+
+        check_option_scale(_T(), random.Random(0), lambda sig, what, rep, size: found.append((sig, what)))
     elif obj["type"] == "inverse-sweep":
         import random
 
